@@ -14,7 +14,7 @@ func (pdb *pgDb) Dump(ctx context.Context, key []byte) (*db.Dumper, error) {
 		return nil, err
 	}
 
-	pdb.SetLanguage(nil)
+	// the listing starts at the default-language key; the language selected on the handle stays as it is
 	lk, err := pdb.ToKey(ctx, key)
 	if err != nil {
 		tx.Rollback(ctx)
